@@ -40,6 +40,7 @@ pub fn prop() -> HistProp {
         mk: |_, _, _| Box::new(C09 { probes: 0, nontrivial: false, seen_states: Default::default() }),
         extra: None,
         many_batches: 3,
+        zero_arrival: 1,
     }
 }
 
